@@ -644,3 +644,6 @@ def run(ctx):
     boundaries.check_calls(ctx, 'C06.RC', 'C06')
     from .. import boundaries as _b
     _b.check_predicates(ctx, 'C06.RP', 'C06')
+    from . import C05
+    C05.r3_transition_discipline(ctx, 'C06.R8')
+    ctx.rules[-1].text = 'a stream popped from a work queue (pending_send / capacity / open / window_updates / accept) is processed under Counts::transition or re-queued on every path: a popped and dropped stream is work that is never done (= C05.R3)'
